@@ -91,6 +91,7 @@ type CfgOut struct {
 	Class    string     `json:"class"`
 	Ifaces   []IfaceOut `json:"ifaces"`
 	Routes   []RouteOut `json:"routes"`
+	Routes6  []RouteOut `json:"routes6"` // IPv6 default routes: NOT an input of the model (the code asks for FAMILY_V4), kept for reports
 	Cmds     [][]string `json:"cmds"`
 	CmdFails []string   `json:"cmd_fails"`
 	Unstable bool       `json:"unstable"`
@@ -197,6 +198,22 @@ func readBack() ([]IfaceOut, []RouteOut, error) {
 	return outI, outR, nil
 }
 
+// IPv6 default routes of the main table (informational: the code under test must not look at them)
+func readBack6() []RouteOut {
+	routes, err := netlink.RouteList(nil, nl.FAMILY_V6)
+	if err != nil {
+		return nil
+	}
+	var out []RouteOut
+	for _, r := range routes {
+		if r.Dst == nil {
+			out = append(out, RouteOut{DstNil: true, SrcNil: r.Src == nil, Link: r.LinkIndex, Prio: r.Priority,
+				Gw: hex.EncodeToString(r.Gw), Text: r.String()})
+		}
+	}
+	return out
+}
+
 func sameJSON(a, b interface{}) bool {
 	x, _ := json.Marshal(a)
 	y, _ := json.Marshal(b)
@@ -237,7 +254,7 @@ func runChild() {
 			fmt.Fprintln(os.Stderr, "child: read back:", err)
 			os.Exit(3)
 		}
-		cfg.Ifaces, cfg.Routes = ifs, rts
+		cfg.Ifaces, cfg.Routes, cfg.Routes6 = ifs, rts, readBack6()
 		cacheFile := writeArpCache(rts, spec.Cases)
 		rows = rows[:0]
 		for n, ci := range spec.Cases {
